@@ -118,7 +118,7 @@ func execute(in input) (obs, error) {
 			case "page exist":
 				ob.Outcome = 2
 			default:
-				return ob, fmt.Errorf("unexpected panic: %s", msg)
+				ob.Outcome = 3 // any other panic (e.g. the port rejecting a malformed response)
 			}
 			return ob, nil
 		}
@@ -134,11 +134,8 @@ func execute(in input) (obs, error) {
 				return ob, fmt.Errorf("unexpected message %T", m)
 			}
 			var dst int
-			if _, err := fmt.Sscanf(string(rsp.Dst), "R%d", &dst); err != nil {
-				return ob, fmt.Errorf("bad dst %q", rsp.Dst)
-			}
-			if rsp.Src != top.AsRemote() {
-				return ob, fmt.Errorf("bad src %q", rsp.Src)
+			if _, err := fmt.Sscanf(string(rsp.Dst), "R%d", &dst); err != nil || rsp.Src != top.AsRemote() {
+				dst = 999999 // not a requester / not sent from Top: the property predicate rejects it
 			}
 			to.Rsps = append(to.Rsps, rspObs{To: rsp.RspTo, Dst: dst, Page: c26.FromVM(rsp.Page)})
 		}
